@@ -29,6 +29,7 @@ From TI Require Import lib.Term lib.TermFacts lib.Rect lib.Lines lib.TermScroll
      proofs.BlockRect proofs.DrawLines proofs.DrawProofs proofs.DrawProofsOld
      proofs.DrawStyles proofs.DrawFinal lib.RectCheck model.DrawTie proofs.DrawTieProofs
      lib.TermPlace proofs.DrawPlace.
+From TI Require gen.Decide proofs.DecideTie.
 Open Scope Z_scope.
 
 (** the loop invariant of [_animate_] (induction on the list of later frames): after every
@@ -235,3 +236,28 @@ Theorem C06_final_ok_live :
   live (exec_evs 0 (start r0 0) St) = live (exec_evs 0 (start r0 0) Ref).
 Proof. exact final_ok_live. Qed.
 Print Assumptions C06_final_ok_live.
+
+(** *** the size-validation decisions tied to the source as theorems (T): the `if check_size:`
+    block of [Renderable._init_render_], the keyword arguments with which [Renderable.draw] calls
+    it, the pad_width / pad_height validation of [BaseImage.draw] and the size validation of
+    [BaseImage._renderer] are translated from the source on every run into [gen/Decide.v] by
+    [harness/tx/tx_decide.py]; for ALL arguments the model decisions above are exactly
+    "the translated slice does not raise" *)
+Theorem C06_source_size_ok :
+  forall check_size allow_scroll animation pw ph tw th,
+  size_ok check_size allow_scroll animation pw ph tw th =
+  TI.proofs.DecideTie.accepted
+    (TI.gen.Decide.src_init_render_check (TI.gen.Decide.src_draw_check_size animation check_size)
+       (TI.gen.Decide.src_draw_allow_scroll animation allow_scroll) pw ph tw th).
+Proof. exact TI.proofs.DecideTie.size_ok_is_source. Qed.
+Print Assumptions C06_source_size_ok.
+
+Theorem C06_source_old_size_ok :
+  forall check_size scroll animation dynamic w h rawW rawH tw th,
+  (0 <= th)%Z ->
+  old_size_ok check_size scroll animation dynamic w h rawW rawH tw th =
+  TI.proofs.DecideTie.accepted (TI.gen.Decide.src_old_draw_pad_check animation rawW rawH tw th)
+  && TI.proofs.DecideTie.accepted
+       (TI.gen.Decide.src_old_renderer_check dynamic check_size animation scroll w h tw th).
+Proof. exact TI.proofs.DecideTie.old_size_ok_is_source. Qed.
+Print Assumptions C06_source_old_size_ok.
